@@ -91,7 +91,19 @@ pub fn cases(prop: &str, tier: Tier, seed: u64) -> Vec<CaseDesc> {
                 out.extend(with_scenario(g(&format!("feature-{}", name), 250, 8_000), "rt:emit"));
             }
         }
-        "C03" | "C04" | "C01" => {
+        "C03" => {
+            out.extend(with_scenario(disk_corpus(false), "rt:emit"));
+            for (p, nq, nt) in [("full", 4000, 200_000), ("mvp", 600, 20_000), ("stable", 600, 20_000)] {
+                out.extend(with_scenario(g(p, nq, nt), "rt:emit"));
+            }
+        }
+        "C04" => {
+            out.extend(with_scenario(disk_corpus(false), "rt:emit"));
+            for (p, nq, nt) in [("full", 2500, 100_000), ("gcgraph", 1500, 60_000), ("mvp", 500, 20_000), ("customs", 500, 20_000)] {
+                out.extend(with_scenario(g(p, nq, nt), "rt:emit"));
+            }
+        }
+        "C01" => {
             out.extend(with_scenario(disk_corpus(false), "rt:emit"));
         }
         _ => {}
